@@ -1288,6 +1288,9 @@ fn parse_replay(ops: &[String]) -> Vec<AnyPlan> {
                     p.steps.push(step);
                 }
             }
+            Some("burst") if w.len() >= 5 => {
+                plans.push(AnyPlan::Burst(BurstPlan { idx: w[1].into(), entry: Entry::parse(w[2]).expect("entry"), n: w[3].parse().unwrap_or(16), end: w[4].into(), reps: 80 }));
+            }
             Some("hs") if w.len() >= 5 => {
                 let cfg = if w[2] == "-" { String::new() } else { w[2].to_string() };
                 match plans.last_mut() {
@@ -1893,10 +1896,196 @@ fn plan_hs() -> Vec<HsPlan> {
         .collect()
 }
 
+// ---------------------------------------------------------------------------------------------
+// bursts (`burst` op lines): n connections entering `handle_connection_with_config` at the same instant on
+// a multi-thread runtime (released through a barrier); every connection must get its own identity
+// ---------------------------------------------------------------------------------------------
+struct BurstPlan {
+    idx: String,
+    entry: Entry,
+    n: usize,
+    end: String,
+    /// a replayed burst is repeated until it fails (the race it provokes is a matter of instructions)
+    reps: usize,
+}
+impl BurstPlan {
+    fn line(&self) -> String {
+        format!("burst {} {} {} {}", self.idx, self.entry.name(), self.n, self.end)
+    }
+}
+
+async fn run_burst(plan: BurstPlan, server_rt: &tokio::runtime::Runtime, out: &Mutex<Out>) {
+    let mut last = (String::new(), Vec::new());
+    for _ in 0..plan.reps.max(1) {
+        last = burst_once(&plan, server_rt).await;
+        if !last.1.is_empty() {
+            break;
+        }
+    }
+    let (obs, fails) = last;
+    let mut o = out.lock().unwrap();
+    let line = plan.line();
+    let mut seen = std::collections::BTreeSet::new();
+    for (sig, detail) in fails {
+        if seen.insert(sig.clone()) {
+            o.oracle_fail(&sig, &format!("[{line}] {detail}"), &[line.clone()]);
+        }
+    }
+    o.count(&format!("burst.{}.{}", plan.entry.name(), plan.n));
+    o.case(&line, &obs, true);
+}
+
+async fn burst_once(plan: &BurstPlan, server_rt: &tokio::runtime::Runtime) -> (String, Vec<(String, String)>) {
+    let reg = PeerRegistry::new();
+    let connects: Arc<Mutex<HashMap<u64, u32>>> = Default::default();
+    let discs: Arc<Mutex<HashMap<u64, u32>>> = Default::default();
+    let total_disc = Arc::new(AtomicU64::new(0));
+    let (c1, d1, td) = (connects.clone(), discs.clone(), total_disc.clone());
+    let router = Router::new().with_json_ctx("/whoami", |ctx: &CallContext, _v: Value| Ok(json!(ctx.peer().map(|p| p.peer_id().0))));
+    let server = WebSocketServer::new(router)
+        .with_peer_registry(reg.clone())
+        .on_peer_connect(move |p: PeerHandle| {
+            *c1.lock().unwrap().entry(p.peer_id().0).or_default() += 1;
+        })
+        .on_peer_disconnect(move |id: PeerId| {
+            *d1.lock().unwrap().entry(id.0).or_default() += 1;
+            td.fetch_add(1, Ordering::SeqCst);
+        });
+    let n = plan.n;
+    let h = server_rt.handle().clone();
+    let mut server_tasks = Vec::new();
+    let mut listener_task = None;
+    let mut clients: Vec<tokio::task::JoinHandle<Result<(Ws, Option<u64>), String>>> = Vec::new();
+    if plan.entry == Entry::Adopt {
+        let shared = server.into_shared();
+        let barrier = Arc::new(tokio::sync::Barrier::new(n));
+        for _ in 0..n {
+            let (cio, sio) = tokio::io::duplex(64 * 1024);
+            let (sh, b) = (shared.clone(), barrier.clone());
+            server_tasks.push(h.spawn(async move {
+                b.wait().await;
+                let ws = sh.adopt_upgraded(sio).await;
+                let _ = sh.serve_connection(ws).await;
+            }));
+            clients.push(tokio::spawn(async move {
+                let b: BoxIo = Box::new(cio);
+                let mut ws: Ws = WebSocketStream::from_raw_socket(b, Role::Client, None).await;
+                let v = rx_call(&mut ws, 1, "/whoami", &json!(null)).await;
+                Ok((ws, v.ok().and_then(|v| v.as_u64())))
+            }));
+        }
+    } else {
+        let l = std::net::TcpListener::bind("127.0.0.1:0").expect("bind");
+        l.set_nonblocking(true).unwrap();
+        let addr = l.local_addr().unwrap();
+        listener_task = Some(h.spawn(async move {
+            let l = tokio::net::TcpListener::from_std(l).unwrap();
+            let _ = server.serve_listener(l, "/repe").await;
+        }));
+        let barrier = Arc::new(tokio::sync::Barrier::new(n));
+        for _ in 0..n {
+            let b = barrier.clone();
+            clients.push(tokio::spawn(async move {
+                let s = tokio::time::timeout(WD, tokio::net::TcpStream::connect(addr)).await.map_err(|_| "tcp-connect-watchdog")?.map_err(|e| e.to_string())?;
+                b.wait().await;
+                let bx: BoxIo = Box::new(s);
+                let (mut ws, _) = tokio::time::timeout(WD, tokio_tungstenite::client_async(format!("ws://{addr}/repe"), bx)).await.map_err(|_| "ws-handshake-watchdog")?.map_err(|e| e.to_string())?;
+                let v = rx_call(&mut ws, 1, "/whoami", &json!(null)).await;
+                Ok((ws, v.ok().and_then(|v| v.as_u64())))
+            }));
+        }
+    }
+    let mut conns: Vec<(Ws, Option<u64>)> = Vec::new();
+    let mut broken = 0usize;
+    for c in clients {
+        match c.await {
+            Ok(Ok(x)) => conns.push(x),
+            _ => broken += 1,
+        }
+    }
+    let mut fails: Vec<(String, String)> = Vec::new();
+    let ids: Vec<u64> = conns.iter().filter_map(|c| c.1).collect();
+    let unanswered = conns.iter().filter(|c| c.1.is_none()).count() + broken;
+    let mut sorted = ids.clone();
+    sorted.sort();
+    let mut dups: Vec<u64> = sorted.windows(2).filter(|w| w[0] == w[1]).map(|w| w[0]).collect();
+    dups.extend(connects.lock().unwrap().iter().filter(|(_, c)| **c > 1).map(|(id, _)| *id));
+    dups.sort();
+    dups.dedup();
+    if !dups.is_empty() {
+        fails.push(("lifecycle.peer_id.duplicate".into(), format!("{} connections accepted at the same instant: peer id(s) {:?} were handed to more than one live connection", n, dups)));
+    }
+    if unanswered > 0 {
+        fails.push(("lifecycle.burst.connection_lost".into(), format!("{unanswered} of {n} concurrently accepted connections died before answering their first request")));
+    }
+    let present = ids.iter().filter(|id| reg.get(PeerId(**id)).map(|h| h.peer_id().0) == Some(**id)).count();
+    if present != ids.len() || reg.len() != n {
+        fails.push(("lifecycle.registry.absent_while_connected".into(), format!("{} live connections, {} of their ids resolve, registry holds {} peers", n, present, reg.len())));
+    }
+    // end them all
+    let mut k = 0;
+    for (mut ws, _) in conns {
+        k += 1;
+        if plan.end == "close" || (plan.end == "mix" && k % 2 == 0) {
+            let _ = ws.send(WsMsg::Close(None)).await;
+        }
+        drop(ws);
+    }
+    let t0 = Instant::now();
+    while (total_disc.load(Ordering::SeqCst) as usize) < n - broken && t0.elapsed() < WD {
+        tokio::time::sleep(Duration::from_millis(1)).await;
+    }
+    for t in server_tasks {
+        let _ = tokio::time::timeout(WD, t).await;
+    }
+    let t1 = Instant::now();
+    while reg.len() > 0 && t1.elapsed() < Duration::from_millis(500) {
+        tokio::time::sleep(Duration::from_millis(1)).await;
+    }
+    tokio::time::sleep(Duration::from_millis(5)).await;
+    if let Some(t) = listener_task {
+        t.abort();
+    }
+    let dmap = discs.lock().unwrap().clone();
+    let once = ids.iter().filter(|id| dmap.get(id).copied() == Some(1)).count();
+    let twice: Vec<u64> = dmap.iter().filter(|(_, c)| **c > 1).map(|(id, _)| *id).collect();
+    if !twice.is_empty() {
+        fails.push(("lifecycle.disconnect.duplicate".into(), format!("disconnect callbacks ran more than once for peer id(s) {:?}", twice)));
+    } else if once != ids.len() {
+        fails.push(("lifecycle.disconnect.missing".into(), format!("{} connections ended, {} ids saw exactly one disconnect callback", ids.len(), once)));
+    }
+    if reg.len() != 0 {
+        fails.push(("lifecycle.registry.present_after_disconnect".into(), format!("all connections are over, the registry still holds {} peers", reg.len())));
+    }
+    let obs = format!(
+        "{} ids={} live={}/{} disc={}x1 after={}",
+        plan.idx,
+        if dups.is_empty() && unanswered == 0 { "distinct" } else { "collide" },
+        present,
+        n,
+        once,
+        if reg.len() == 0 { "empty".to_string() } else { reg.len().to_string() }
+    );
+    (obs, fails)
+}
+
+fn plan_burst(rng: &mut Rng, thorough: bool) -> Vec<BurstPlan> {
+    let mut v = Vec::new();
+    let (na, nl) = if thorough { (400, 40) } else { (60, 8) };
+    for i in 0..na {
+        v.push(BurstPlan { idx: format!("b{i}"), entry: Entry::Adopt, n: *rng.pick(&[16usize, 24, 32]), end: rng.pick(&["drop", "close", "mix"]).to_string(), reps: 1 });
+    }
+    for i in 0..nl {
+        v.push(BurstPlan { idx: format!("bl{i}"), entry: Entry::Listener, n: 32, end: rng.pick(&["drop", "close", "mix"]).to_string(), reps: 1 });
+    }
+    v
+}
+
 enum AnyPlan {
     Life(Plan),
     Rx(RxPlan),
     Hs(HsPlan),
+    Burst(BurstPlan),
 }
 
 fn main() {
@@ -1911,6 +2100,7 @@ fn main() {
             // registry scripts first (cheap), then the lifecycle matrix
             let nrx = if args.thorough() { 600 } else { 60 };
             let mut v: Vec<AnyPlan> = plan_hs().into_iter().map(AnyPlan::Hs).collect();
+            v.extend(plan_burst(&mut rng, args.thorough()).into_iter().map(AnyPlan::Burst));
             v.extend((0..nrx).map(|i| AnyPlan::Rx(plan_rx(&mut rng, 100_000 + i))));
             v.extend(plan(&mut rng, args.thorough()).into_iter().map(AnyPlan::Life));
             v
@@ -1937,6 +2127,7 @@ fn main() {
                 }
                 AnyPlan::Rx(p) => run_rx(p, &server_rt, &out).await,
                 AnyPlan::Hs(p) => run_hs(p, &server_rt, &out).await,
+                AnyPlan::Burst(p) => run_burst(p, &server_rt, &out).await,
             }
             // a failing input has been found and recorded with its replay: no need to wait out the watchdogs
             // of every later group
